@@ -143,6 +143,13 @@ def replay(ctx, fi):
 def classify(entry, failure):
     c = entry.get("classifier")
     obs = failure.get("observed") or {}
+    if c == "solver_undershoot":
+        # a tiny negative left by the integrator: at most 1e-3 objects / 0.1 Msun below zero
+        if obs.get("clause") != "counts and masses non-negative":
+            return False
+        v = float(obs["value"])
+        lim = 1e-3 if obs["attr"].startswith(("N", "mr", "ms")) else 0.1
+        return -lim <= v < 0
     if c == "turnoff_age_thin_bin":
         # a requested age within rounding of a bin's turn-off time: the truncated turn-off bin is thinner than Pk's resolution
         return obs.get("clause") == "every element of every per-age output is finite" and obs.get("attr") in ("Ms", "ms", "mmean") and _age_on_turnoff(failure)
